@@ -135,7 +135,7 @@ func c17Observe(t rec.TB, r *rec.Rec, ctx sdk.Context, c interface{}, asset uint
 	func() {
 		defer func() {
 			if x := recover(); x != nil {
-				fail("C17.no-panic", "consumer panicked: %v", x)
+				fail(r.Property+".no-panic", "consumer panicked: %v", x)
 			}
 		}()
 		_, lerr = mk.GetLatestPrice(ctx, asset)
@@ -173,7 +173,7 @@ func c17RunDirect(t rec.TB, r *rec.Rec, c *c17Case) {
 		func() {
 			defer func() {
 				if x := recover(); x != nil {
-					r.Fail(t, "C17.no-panic", fmt.Sprintf("direct,N=%d", n), c, "step %d (rate %d at height %d): UpdatePriceList panicked: %v", i, s.Rate, h, x)
+					r.Fail(t, r.Property+".no-panic", fmt.Sprintf("direct,N=%d", n), c, "step %d (rate %d at height %d): UpdatePriceList panicked: %v", i, s.Rate, h, x)
 				}
 			}()
 			mk.UpdatePriceList(ctx, c17Asset[0], 7, s.Rate, c.N, c.Gap)
@@ -315,7 +315,7 @@ func c17RunPipeline(t rec.TB, r *rec.Rec, c *c17PCase) {
 		func() {
 			defer func() {
 				if x := recover(); x != nil {
-					r.Fail(t, "C17.no-panic", fmt.Sprintf("pipeline,N=%d", n), c, "check %d at height %d: begin blockers panicked: %v", i, h, x)
+					r.Fail(t, r.Property+".no-panic", fmt.Sprintf("pipeline,N=%d", n), c, "check %d at height %d: begin blockers panicked: %v", i, h, x)
 				}
 			}()
 			bandoracle.BeginBlocker(ctx, abci.RequestBeginBlock{}, app.BandoracleKeeper)
@@ -384,28 +384,33 @@ func c17RunPipeline(t rec.TB, r *rec.Rec, c *c17PCase) {
 	}
 }
 
+func c17GenPipeline(rt *rapid.T) *c17PCase {
+	c := &c17PCase{}
+	c.N = uint64(rapid.SampledFrom([]int{1, 2, 2, 3, 3, 4, 6}).Draw(rt, "n"))
+	c.Gap = int64(rapid.SampledFrom([]int{1, 20, 21, 40, 41, 50, 60, 100}).Draw(rt, "gap"))
+	l := rapid.IntRange(1, int(4*c.N)+8).Draw(rt, "len")
+	for i := 0; i < l; i++ {
+		s := c17PStep{Arrive: rapid.IntRange(0, 9).Draw(rt, fmt.Sprintf("arr%d", i)) < 7}
+		for k := 0; k < 2; k++ {
+			switch rapid.IntRange(0, 9).Draw(rt, fmt.Sprintf("rk%d_%d", i, k)) {
+			case 0:
+				s.Rates[k] = 0
+			case 1:
+				s.Rates[k] = rapid.SampledFrom(c17Rates).Draw(rt, fmt.Sprintf("rc%d_%d", i, k))
+			default:
+				s.Rates[k] = uint64(rapid.Int64Range(1, 5000000).Draw(rt, fmt.Sprintf("rr%d_%d", i, k)))
+			}
+		}
+		c.Steps = append(c.Steps, s)
+	}
+	return c
+}
+
 func TestC17_pipeline(t *testing.T) {
 	r := rec.New("C17", "pipeline")
 	t.Cleanup(r.Flush)
 	rapid.Check(t, func(rt *rapid.T) {
-		c := &c17PCase{}
-		c.N = uint64(rapid.SampledFrom([]int{1, 2, 2, 3, 3, 4, 6}).Draw(rt, "n"))
-		c.Gap = int64(rapid.SampledFrom([]int{1, 20, 21, 40, 41, 50, 60, 100}).Draw(rt, "gap"))
-		l := rapid.IntRange(1, int(4*c.N)+8).Draw(rt, "len")
-		for i := 0; i < l; i++ {
-			s := c17PStep{Arrive: rapid.IntRange(0, 9).Draw(rt, fmt.Sprintf("arr%d", i)) < 7}
-			for k := 0; k < 2; k++ {
-				switch rapid.IntRange(0, 9).Draw(rt, fmt.Sprintf("rk%d_%d", i, k)) {
-				case 0:
-					s.Rates[k] = 0
-				case 1:
-					s.Rates[k] = rapid.SampledFrom(c17Rates).Draw(rt, fmt.Sprintf("rc%d_%d", i, k))
-				default:
-					s.Rates[k] = uint64(rapid.Int64Range(1, 5000000).Draw(rt, fmt.Sprintf("rr%d_%d", i, k)))
-				}
-			}
-			c.Steps = append(c.Steps, s)
-		}
+		c := c17GenPipeline(rt)
 		r.Guard(func() { c17RunPipeline(rt, r, c) })
 	})
 }
